@@ -71,7 +71,7 @@ pub fn run() -> Report {
             cases.push(Case { big: false, layout: layout.clone(), key, cbs: vec!["csvdump", "unspentcsvdump"] });
         }
     }
-    rep.rule = format!("all arrangements of {} blocks into <=3 files x gaps (none / 13 odd garbage bytes) x keys of length 1,2,3,7,8,9,64 and 8 zero bytes, XOR applied from file offset 0; blocks of 40 KiB and 100 KiB in forward / backward / mixed order; sparse offsets beyond 4 GiB; csvdump for every case and all five callbacks for every 6th: output must be identical to the plaintext directory's (differential) and equal the model; non-trivial = distinct (layout, key)", n);
+    rep.rule = format!("all arrangements of {} blocks into <=3 files x gaps (none / 13 odd garbage bytes) x keys of length 1,2,3,7,8,9,64 and 8 zero bytes, XOR applied from file offset 0; blocks of 40 KiB and 100 KiB in forward / backward / mixed order; sparse offsets beyond 4 GiB; csvdump for every case and all five callbacks for every 6th: output must be identical to the plaintext directory's (differential oracle; the plaintext csvdump run is additionally compared with the model once per layout); non-trivial = distinct (layout, key)", n);
     rep.bound = json!({"blocks": n, "cases": cases.len(), "keys": keys().len()});
     rep.not_covered = vec!["empty xor.dat (outside the statement)".into()];
     let root = refmodel::world::scratch_root();
@@ -107,19 +107,13 @@ pub fn run() -> Report {
                 let spec = RunSpec::new("bitcoin", cbn);
                 let r = wk.run(&spec);
                 acc.transitions += 1;
-                let (s, e) = (r.declared_start().unwrap_or(0), r.declared_end().unwrap_or(chain.blocks.len() as u64 - 1));
-                let range = in_range(&chain.mblocks(), s, e);
-                let mut bad = match *cbn {
-                    "csvdump" => check_csvdump(&r, btc, &range, s, e),
-                    "unspentcsvdump" => check_unspent(&r, btc, &range, s, e),
-                    "balances" => check_balances(&r, btc, &range, s, e),
-                    "simplestats" => check_stats(&r, btc, &range),
-                    _ => check_opreturn(&r, btc, &range),
-                };
+                // the statement is a relation between two runs: the obfuscated directory must give what the plaintext one gives
+                // (whether that common result is right is the business of C01/C07/C08/C15/C16)
+                let mut bad: Vec<Mismatch> = Vec::new();
                 let o = observe(&r, &wk.dir);
-                // debug line "using key ..." is not printed at default verbosity; outputs must be identical
-                if bad.is_empty() && o != plain_obs[i] {
-                    bad.push(("output-differs-from-plaintext-directory".into(), format!("xor run {} vs plaintext {}", o, plain_obs[i])));
+                if o != plain_obs[i] {
+                    let sig = if r.code != Some(0) { "run-failed" } else { "output-differs-from-plaintext-directory" };
+                    bad.push((sig.into(), format!("xor run {} vs plaintext {}", o.to_string().chars().take(400).collect::<String>(), plain_obs[i].to_string().chars().take(400).collect::<String>())));
                 }
                 if let Some((sig, detail)) = bad.into_iter().next() {
                     let rc = if c.big || xor_world.files.values().any(|f| f.len > 300_000) { json!({"kind": "e1-described", "layout": c.layout.label, "key": refmodel::ser::hex(&c.key), "callback": cbn}) } else { replay_case(&xor_world, &spec, json!({"oracle": "identical to plaintext directory and model"}), &r, &wk.dir) };
